@@ -67,4 +67,15 @@ CHECKS["C09"] = (
     "FFT-based operations) under the synchronous, threaded, process and TLC-forced schedules; laziness and container-only "
     "clauses are decided by TLC on recorded events from replays, drivers, readers and the repository's tests.",
     TB + " Dask schedulers are libraries; the sentinel counter sees in-process execution only.", "DESIGN.md §4 C09")
+CHECKS["C08"] = (
+    "TLA+ specs PolycoSpans/MC_Polyco model-checked by TLC for the span-merge and entry-selection logic + TLC trace "
+    "validation (Trace_Polyco.tla) of recorded calls of the real PhasePredictor against the tempo formula evaluated in "
+    "exact rationals by TLC from the polyco text bytes",
+    "TLC checks exhaustively, on a half-millisecond TMID lattice with <=4 (5 thorough) equal-span rows, that the intervals "
+    "loop yields the declared union with 1 ms joining, that the searchsorted row contains every in-span time and that exactly "
+    "the times outside every interval raise (two negative models rejected). Every recorded p(t), f0, phasepol, time_at, "
+    "intervals and row-subset call on generated polycos (1-6 entries, NCOEFF 1-15, D/E exponents, signs, spans 10-1440 "
+    "min, F0 0.1-700 Hz, |RPHASE| < 1e12) and on timing.dat is decided by TLC at the property's tolerances; the text "
+    "travels as bytes and TLC parses it itself.",
+    TB + " astropy Time and UTC<->TAI (checked per event at 2^-49 day); leap-second days avoided.", "DESIGN.md §4 C08")
 NA = {}
